@@ -12,10 +12,26 @@ def _single(p, tier, what="", timeout=600):
              "full bit-width of every numeric field; enum variants / bools enumerated", tier=tier, timeout=timeout)
 
 
+_p = "serialization::speedy_pl_cdr_helpers::verif_harness_c15_parts"
+_s = "discovery::sedp_messages::verif_harness_c15_sedp"
+_d = "discovery::spdp_participant_data::verif_harness_c15_spdp"
+_REC = ("x.to_pl_cdr_bytes(PL_CDR_LE and PL_CDR_BE) -> from_pl_cdr_bytes == x field by field "
+        "(updated_time / last_updated, which are receive time, ignored); ")
+_RB = ("concrete presence pattern, enum variants, string lengths (1-3 ASCII bytes) and <= 1 locator per list; "
+       "all GUID bytes, durations, counts, ports, addresses, string bytes symbolic at full width")
+
+
+def _rec(name, mod, what, tier="thorough", timeout=1800, **kw):
+    return H(name, mod, _REC + what, _RB, tier=tier, timeout=timeout, **kw)
+
+
 PROP = {
     "title": "discovery data and QoS survive the wire, unknown parameters are skipped",
     "design_ref": "DESIGN.md section 3, C15",
-    "inject": {"src/dds/qos.rs": ["c15_qos"]},
+    "inject": {"src/dds/qos.rs": ["c15_qos"],
+               "src/serialization/speedy_pl_cdr_helpers.rs": ["c15_parts"],
+               "src/discovery/sedp_messages.rs": ["c15_sedp"],
+               "src/discovery/spdp_participant_data.rs": ["c15_spdp"]},
     # the pl_map (BTreeMap<ParameterId, Vec<&Parameter>>) flows through these three files
     "shim_files": ["src/dds/qos.rs", "src/messages/submessages/elements/parameter_list.rs",
                    "src/serialization/speedy_pl_cdr_helpers.rs"],
@@ -23,7 +39,9 @@ PROP = {
     # CBMC keeps constants only in arrays of <= 64 elements by default; RustDDS's
     # Vec::<Parameter>::with_capacity(8) is a 256-byte heap array, and without constants every
     # parameter length read back is symbolic for the symbolic executor (symbolic-size allocations).
-    "cbmc_args": ["--max-field-sensitivity-array-size", "256"],
+    # The whole records push up to 16-18 parameters (Vec<Parameter> grows to 32 x 32 bytes) and are
+    # up to ~350 bytes on the wire: 1024 (measured: no slowdown against 256 on the small harnesses).
+    "cbmc_args": ["--max-field-sensitivity-array-size", "1024"],
     "harnesses": [
         H("c15_qos_none_present", _q, "absent parameters: the empty list (sentinel only) decodes to 'no policy', LE and BE", "-"),
         _single("deadline", "quick"), _single("latency_budget", "quick"), _single("time_based_filter", "quick"),
@@ -40,13 +58,98 @@ PROP = {
         H("c15_qos_all_present", _q, "all 12 policies present (13 parameters), 4 variant combinations, LE and BE", "full bit-width", tier="thorough", timeout=2400),
         H("c15_qos_foreign_symbolic_pid", _q, "foreign PID fully symbolic (not sentinel, not a QoS PID) before / after PID_DEADLINE", "1 foreign parameter, 4 / 8 bytes", tier="thorough", timeout=2400),
         H("c15_qos_foreign_grid", _q, "foreign PIDs 0x8000 0x800f 0x0000 0x7fff between Deadline and Lifespan", "4 concrete PIDs", tier="thorough", timeout=2400),
+
+        # ================= parts (per-parameter round trips) =================
+        H("c15_part_locator_udp4", _p, "Locator::UdpV4: write_to -> 24 bytes -> read_from == original, LE and BE", "any address, any port"),
+        H("c15_part_locator_udp6", _p, "Locator::UdpV6, LE and BE", "any address, any port; flowinfo = scope_id = 0 (no wire field; RustDDS's own locators have 0)"),
+        H("c15_part_locator_invalid", _p, "Locator::Invalid, LE and BE", "-"),
+        H("c15_part_locator_reserved", _p, "Locator::Reserved, LE and BE", "-", tier="thorough"),
+        H("c15_part_locator_other", _p, "Locator::Other{kind, port, address} (a transport RustDDS does not know), LE and BE", "any kind outside -1..=2, any port / address", tier="thorough"),
+        H("c15_part_guid_duration_endpoints", _p, "GUID (16 bytes), Duration (8), BuiltinEndpointSet (4), BuiltinEndpointQos (4): write -> read == original, LE and BE", "every bit pattern"),
+        H("c15_part_string_len0", _p, "StringWithNul of length 0: u32 length incl. NUL + bytes + NUL, read back equal, LE and BE", "-"),
+        H("c15_part_string_len1", _p, "StringWithNul of length 1, any non-NUL ASCII byte, LE and BE", "ASCII 1..=127"),
+        H("c15_part_string_len2", _p, "StringWithNul of length 2", "ASCII 1..=127"),
+        H("c15_part_string_len3", _p, "StringWithNul of length 3", "ASCII 1..=127"),
+        # ================= ParticipantMessageData (plain CDR through serde) =================
+        H("c15_pmd_roundtrip_data0", _s, "ParticipantMessageData {any prefix, any 4-byte kind, empty data}: to_writer_with_rep_id(CDR_LE / CDR_BE) -> deserialize_from_cdr_with_rep_id == original, all bytes consumed, key equal", "data length 0 (what RustDDS sends)"),
+        H("c15_pmd_roundtrip_data1", _s, "same with 1 data byte", "data length 1", tier="thorough"),
+        H("c15_pmd_roundtrip_data4", _s, "same with 4 data bytes", "data length 4", tier="thorough"),
+        # ================= DiscoveredTopicData (one byte order per instance) =================
+        _rec("c15_topic_none_le", _s, "DiscoveredTopicData with every optional field absent (absent key / policies decode to None), PL_CDR_LE", tier="quick", timeout=900),
+        _rec("c15_topic_none_be", _s, "same, PL_CDR_BE", tier="quick", timeout=900),
+        _rec("c15_topic_key_be", _s, "DiscoveredTopicData: key present, strings of 3 and 2 bytes, BE"),
+        _rec("c15_topic_deadline_le", _s, "DiscoveredTopicData: Deadline only, strings of 2 and 3 bytes, LE"),
+        _rec("c15_topic_history_keeplast_be", _s, "DiscoveredTopicData: History KeepLast{any depth} only, BE"),
+        _rec("c15_topic_reliability_reliable_le", _s, "DiscoveredTopicData: key + Reliable{any max_blocking_time}, LE"),
+        _rec("c15_topic_all_v0_le", _s, "DiscoveredTopicData: key + all 11 policies a topic record carries (variant set 0), LE", timeout=3000),
+        _rec("c15_topic_all_v1_be", _s, "DiscoveredTopicData: key + all 11 policies (variant set 1: Exclusive ownership, Reliable, KeepLast ...), BE", timeout=3000),
+        # ================= DiscoveredWriterData =================
+        _rec("c15_writer_none_le", _s, "DiscoveredWriterData with every optional field absent; absent DDS-RPC parameters decode to None, LE"),
+        _rec("c15_writer_none_be", _s, "same, BE"),
+        _rec("c15_writer_max_size_be", _s, "DiscoveredWriterData: data_max_size_serialized present, BE"),
+        _rec("c15_writer_participant_le", _s, "DiscoveredWriterData: participant_key present, strings of 3 and 2 bytes, LE"),
+        _rec("c15_writer_unicast_udp4_be", _s, "DiscoveredWriterData: one UdpV4 unicast locator, BE"),
+        _rec("c15_writer_multicast_udp6_le", _s, "DiscoveredWriterData: one UdpV6 multicast locator, LE"),
+        _rec("c15_writer_reliable_deadline_be", _s, "DiscoveredWriterData: Reliable + Deadline, BE"),
+        _rec("c15_writer_all_le", _s, "DiscoveredWriterData: every optional field but the DDS-RPC ones + durability, ownership Exclusive, liveliness, lifespan (12 parameters), LE", timeout=3000),
+        _rec("c15_writer_qos_all_be", _s, "DiscoveredWriterData: all 10 policies a publication record carries (variant set 1), BE", timeout=3000),
+        # ---- finding harnesses: FAIL until from_pl_cdr_bytes reads the three parameters back
+        _rec("c15_finding_publication_optional_fields_lost", _s, "DiscoveredWriterData with publication_topic_data.related_datareader_key = Some(any GUID): the field must survive (LE)", tier="quick", timeout=900, expect="fail"),
+        _rec("c15_finding_publication_service_instance_name_lost", _s, "same for service_instance_name = Some(1-byte string)", expect="fail"),
+        _rec("c15_finding_publication_topic_aliases_lost", _s, "same for topic_aliases = Some(vec![1-byte string])", expect="fail"),
+        # ================= DiscoveredReaderData =================
+        _rec("c15_reader_none_le", _s, "DiscoveredReaderData with every optional field absent, expects_inline_qos symbolic, LE"),
+        _rec("c15_reader_none_be", _s, "same, BE"),
+        _rec("c15_reader_participant_be", _s, "DiscoveredReaderData: participant_key present, BE"),
+        _rec("c15_reader_unicast_udp4_le", _s, "DiscoveredReaderData: one UdpV4 unicast locator, LE"),
+        _rec("c15_reader_time_based_filter_be", _s, "DiscoveredReaderData: TimeBasedFilter, BE"),
+        _rec("c15_reader_content_filter0_le", _s, "DiscoveredReaderData: ContentFilterProperty with 4 strings (1,2,3,1 bytes), no expression parameter, LE"),
+        _rec("c15_reader_content_filter1_be", _s, "DiscoveredReaderData: ContentFilterProperty with one 2-byte expression parameter, BE"),
+        _rec("c15_reader_all_le", _s, "DiscoveredReaderData: every optional field (participant, UdpV6 + UdpV4 locators, content filter) + 3 policies, LE", timeout=3000),
+        _rec("c15_reader_qos_all_be", _s, "DiscoveredReaderData: all 10 policies a subscription record carries (variant set 0), BE", timeout=3000),
+        H("c15_reader_default_expects_inline_qos", _s, "PID_EXPECTS_INLINE_QOS removed from the emitted list: decodes to false (RTPS default), other fields unchanged", _RB, tier="thorough", timeout=1800),
+        # ================= SpdpDiscoveredParticipantData =================
+        _rec("c15_participant_none_le", _d, "SpdpDiscoveredParticipantData with every optional field absent (lease_duration / builtin_endpoint_qos / entity_name None, empty locator lists), LE"),
+        _rec("c15_participant_none_be", _d, "same, BE"),
+        _rec("c15_participant_lease_be", _d, "SpdpDiscoveredParticipantData: lease_duration present, BE"),
+        _rec("c15_participant_endpoint_qos_le", _d, "SpdpDiscoveredParticipantData: builtin_endpoint_qos present, LE"),
+        _rec("c15_participant_entity_name_be", _d, "SpdpDiscoveredParticipantData: entity_name (2 bytes) present, BE"),
+        _rec("c15_participant_meta_unicast_le", _d, "SpdpDiscoveredParticipantData: one metatraffic unicast locator, LE"),
+        _rec("c15_participant_default_multicast_be", _d, "SpdpDiscoveredParticipantData: one default multicast locator, BE"),
+        _rec("c15_participant_own_le", _d, "SpdpDiscoveredParticipantData as RustDDS announces itself: four locator lists of one UdpV4 locator, lease duration (11 parameters), LE", timeout=3000),
+        _rec("c15_participant_all_be", _d, "SpdpDiscoveredParticipantData: every optional field present (13 parameters), BE", timeout=3000),
+        H("c15_participant_defaults", _d, "PID_EXPECTS_INLINE_QOS and PID_PARTICIPANT_MANUAL_LIVELINESS_COUNT removed from the emitted list: decode to false / 0, absent optionals to None, others unchanged", _RB, tier="thorough", timeout=1800),
+        # ================= unknown parameters on a whole record =================
+        # DiscoveredTopicData {key, name, type, deadline}; the foreign parameter is spliced into the wire bytes
+        H("c15_topic_foreign_vendor_front_le", _s, "vendor PID 0x8007, 4 symbolic bytes, in front of the list (LE): decoded record unchanged", "concrete PID and position, symbolic value bytes", tier="thorough", timeout=1800),
+        H("c15_topic_foreign_vendor_mid_be", _s, "vendor PID 0x8000, 8 bytes, after the GUID (BE)", "concrete PID and position", tier="thorough", timeout=1800),
+        H("c15_topic_foreign_standard_mid_le", _s, "unused standard-range PID 0x0063, 8 bytes, between the two strings (LE)", "concrete PID and position", tier="thorough", timeout=1800),
+        H("c15_topic_foreign_standard_last_be", _s, "PID 0x0063, 4 bytes, before the sentinel (BE)", "concrete PID and position", tier="thorough", timeout=1800),
+        H("c15_topic_foreign_vendor_bfff_be", _s, "vendor PID 0xbfff, 4 bytes, before the Deadline (BE)", "concrete PID and position", tier="thorough", timeout=1800),
+        H("c15_topic_foreign_reserved_last_le", _s, "reserved PID 0x3f00, 8 bytes, before the sentinel (LE)", "concrete PID and position", tier="thorough", timeout=1800),
+        H("c15_topic_foreign_pad_mid_le", _s, "PID_PAD with 4 bytes after the GUID (LE)", "concrete PID and position", tier="thorough", timeout=1800),
     ],
-    "bounds": {"unwind": 20, "CAP": "6 (quick) / 16 (thorough) distinct PIDs per list",
-               "presence": "concrete pattern per harness instance", "foreign_parameters": 1},
-    "outside": ["whole-record round trips (SpdpDiscoveredParticipantData, DiscoveredReader/Writer/TopicData, "
-                "ParticipantMessageData): not built in this revision, see the report",
-                "per-parameter round trips of Locator / GUID / StringWithNul / BuiltinEndpointSet",
-                "more than one foreign parameter; duplicate parameters",
+    "bounds": {"unwind": "20 (24 for writer / reader / participant records)",
+               "CAP": "6 (quick) / 16 (thorough) distinct PIDs per list",
+               "presence": "concrete pattern per harness instance: {every optional field absent, every optional field "
+                           "present, single-field patterns}; 'absent' patterns in both byte orders, the others "
+                           "alternate between PL_CDR_LE and PL_CDR_BE",
+               "strings": "concrete length 0-3, symbolic non-NUL ASCII bytes",
+               "locators": "<= 1 per list, variant concrete, address / port symbolic",
+               "scalars": "GUID bytes, durations, counts, sizes, endpoint sets, vendor / protocol version: full bit-width",
+               "foreign_parameters": 1},
+    "outside": ["whole-record presence patterns other than the listed grid; more than one locator per list; strings "
+                "longer than 3 bytes or non-ASCII (the String::from_utf8 stand-in ASSERTS ASCII, it does not assume it)",
+                "PublicationBuiltinTopicData::{service_instance_name, related_datareader_key, topic_aliases} = Some(..) in the "
+                "general DiscoveredWriterData harnesses: open finding, decided by c15_finding_publication_* instead; "
+                "topic_aliases = Some(vec![]) puts no parameter on the wire by design of the encoding",
+                "Locator::Other{kind in -1..=2} (reads back as Invalid / Reserved / UdpV4 / UdpV6) and UdpV6 flowinfo / scope_id != 0: "
+                "RTPS Locator_t has no such values / fields, neither the decoder nor RustDDS (SocketAddr::new) produces them",
+                "records whose two GUID fields differ (remote_writer_guid != publication key, remote_reader_guid != subscription key): "
+                "one parameter on the wire, the code logs a warning",
+                "security tokens / properties / security_info (feature off in this check)",
+                "ParticipantMessageData.data longer than 4 bytes",
+                "more than one foreign parameter; duplicate parameters; unknown PIDs with the must-understand bit on whole records",
                 "the security `property` policy (never serialised by to_parameter_list)"],
     "assumptions": [
         "speedy's slice entry points (Readable::read_from_buffer_with_ctx, Writable::write_to_vec_with_ctx) are "
@@ -54,14 +157,23 @@ PROP = {
         "(read_from_stream_unbuffered_with_ctx / write_to_stream_with_ctx); every RustDDS Readable/Writable impl "
         "runs unchanged; native replay uses the original entry points",
         "std BTreeMap replaced by the array-backed shim under cfg(kani)",
+        "String::from_utf8 replaced under Kani by 'assert every byte < 128, then from_utf8_unchecked' (std's validation "
+        "loop costs 768 unwindings for 3 symbolic bytes); chrono::Utc::now and std::time::Instant::now replaced by "
+        "constants (they only fill updated_time / last_updated, which no oracle reads)",
     ],
     "trusted": ["/verif/shim/collections.rs (BTreeMap stand-in for the parameter map)",
                 "speedy 0.8.7 StreamReader / WritingCollector == BufferReader / BufferCollector on the same bytes"],
-    "explanation": "C15: PL_CDR round trips of QosPolicies through the real ParameterList writer and reader.",
+    "explanation": ("C15: PL_CDR round trips of QosPolicies, of the parts (Locator, GUID, Duration, endpoint sets, "
+                    "StringWithNul) and of the whole records (DiscoveredTopicData, DiscoveredWriterData, "
+                    "DiscoveredReaderData, SpdpDiscoveredParticipantData) through the real to_pl_cdr_bytes / "
+                    "from_pl_cdr_bytes; CDR round trip of ParticipantMessageData; one foreign parameter spliced into "
+                    "a QoS list or a serialized DiscoveredTopicData."),
     "technique": "Kani/CBMC bounded symbolic model checking of the real PL_CDR writers and readers",
     "level_text": ("SAT-solver verdict over all numeric contents at full bit-width for a concrete grid of presence "
                    "patterns and enum variants; both byte orders."),
-    "level_note": ("Only the QosPolicies part of C15 is decided in this revision; the whole-record clauses are listed "
-                   "under outside_bounds. Trusted: Kani/CBMC/CaDiCaL, the container shim, the equivalence of speedy's "
-                   "stream and slice entry points."),
+    "level_note": ("Quick tier: QosPolicies single-policy grid, the parts, ParticipantMessageData, DiscoveredTopicData "
+                   "(all optional fields absent, both byte orders), DiscoveredWriterData (absent pattern, LE) and the open "
+                   "finding harness. Thorough tier: the remaining presence grid of all four PL_CDR records, defaults of "
+                   "omitted parameters, foreign parameters on a whole record. Trusted: Kani/CBMC/CaDiCaL, the container "
+                   "shim, the equivalence of speedy's stream and slice entry points."),
 }
